@@ -94,8 +94,7 @@ def cfgOfRow (r : SqlVerif.Gen.DialectRow) : Cfg :=
     isPostgres := r.name == "postgresql", isSnowflake := r.name == "snowflake",
     trailingCommas := r.flags.supports_trailing_commas,
     dqWord := r.asciiDelimStart.getD 34 false,
-    lbWord := r.asciiDelimStart.getD 91 false && r.name != "redshift",
-    gtOp := r.asciiCustomOp.getD 62 false }
+    lbWord := r.asciiDelimStart.getD 91 false && r.name != "redshift" }
 
 def rowOf (name : String) : Option SqlVerif.Gen.DialectRow := SqlVerif.Gen.dialects.find? (·.name == name)
 
@@ -390,7 +389,7 @@ def handlePrint (args : List String) : String :=
             lexMod := fun m => match mods.find? (·.1 == m) with | some (_, some r) => r | _ => [] }
           -- a raw modifier that does not lex on its own is outside the model
           if (modsOf t).any (fun m => match mods.find? (·.1 == m) with | some (_, some _) => false | _ => true) then "UNSUPPORTED" else
-          match (printDT (cfgOfRow row) env t).mapM encTok with
+          match (printDT (cfgOfRow row) env (row.asciiCustomOp.getD 62 false) t).mapM encTok with
           | some l => "TOKS " ++ (if l.isEmpty then "-" else ";".intercalate l)
           | none => "KWMISMATCH"
       | _ => "bad-sexp"
